@@ -1,24 +1,68 @@
 /-
-C20 — uploads are all-or-nothing under faults; upload ids are never reused. Property theorems.
+C20 — uploads are all-or-nothing under faults; upload ids are never reused.
+Property theorems about the model `Model/Storage/Upload.lean` (processUpload, indexFile, db.Upload,
+id allocation) and `Model/Storage/IdAlloc.lean` (concurrent allocation). Helper lemmas live in
+`Proofs/Lemmas/C20Base.lean`, `Proofs/Lemmas/C20Alloc.lean`.
 -/
-import Model.Storage.Upload
-import Model.Storage.IdAlloc
+import Proofs.Lemmas.C20Base
+import Proofs.Lemmas.C20Alloc
 
 namespace C20
-open Storage.Upload
+open Storage.Upload Storage.IdAlloc
 
-theorem failed_upload_leaves_records (env : Env) (req : Req) (s : Sys) (e : Err)
-    (h : (processUpload env req s).resp = .error e) :
-    (processUpload env req s).sys.db.records = s.db.records := by
-  unfold processUpload at h ⊢
-  simp only at h ⊢
-  split
-  · rfl
-  · split
-    · rfl
-    · split
-      · rfl
-      · rename_i h1 h2 h3
-        simp [h1, h2, h3] at h
+/-- Every state reached from the empty system by any history of requests (successful or failed,
+with or without faults) satisfies the invariant: records and files belong to existing Uploads rows,
+rows of a day are numbered 1..n, no row twice. -/
+theorem reachable_wf (hist : List (Env × Req)) : WfSys (runHistory hist {}) :=
+  runHistory_wf hist {} WfSys.empty
+
+/-- **single_fault_atomic** (post-state part). For every history of earlier requests, every request
+and every way it ends in an error — whatever the fault was and wherever it struck — afterwards
+(i) the index is unchanged, no record is queryable under the id the failed upload was given and the
+    listing does not show it,
+(ii) the file being written when the failure happened is not in the store,
+(iii) the files of earlier uploads are all still there and anything new in the store carries the failed
+    upload's own (fresh) id. -/
+theorem single_fault_atomic (hist : List (Env × Req)) (env : Env) (req : Req) (e : Err)
+    (h : (processUpload env req (runHistory hist {})).resp = .error e) :
+    FailedPost (runHistory hist {}) (processUpload env req (runHistory hist {})) :=
+  failed_post env req _ (reachable_wf hist) e h
+
+/-- **ids_format_monotone**. Along any history the ids handed out (also to uploads that failed
+afterwards: their Uploads row persists) are pairwise different, within one day strictly increasing in
+creation order, numbered from 1, never equal to a row that existed before, and every one of them is
+still a row at the end. The id string is `YYYYMMDD.N` by `renderId`. -/
+theorem ids_format_monotone (hist : List (Env × Req)) :
+    (allocs hist {}).Pairwise (fun a b => a ≠ b ∧ (a.day = b.day → a.seq < b.seq)) ∧
+    (∀ k ∈ allocs hist {}, 1 ≤ k.seq ∧ k ∈ (runHistory hist {}).db.uploads) ∧
+    (∀ k : UKey, renderId k = natBytes k.day ++ [46] ++ natBytes k.seq) := by
+  have h := allocs_spec hist {} WfSys.empty
+  exact ⟨h.1, fun k hk => ⟨(h.2 k hk).2.1, (h.2 k hk).2.2.2⟩, fun _ => rfl⟩
+
+/-- the id of a request is the day of the request -/
+theorem id_has_request_day (env : Env) (req : Req) (s : Sys) (k : UKey)
+    (h : (processUpload env req s).alloc = some k) : k.day = env.day := by
+  rcases alloc_spec env req s with ⟨h1, _⟩ | ⟨k', h1, h2, _⟩
+  · rw [h1] at h; cases h
+  · rw [h1] at h; cases h; exact allocId_day h2
+
+example : renderId ⟨20260929, 12⟩ = Bytes.ofString "20260929.12" := by decide +kernel
+
+/-- **ids_unique_all_interleavings**. Any number of concurrent id transactions (one day each), any
+schedule of their atomic steps read-last / insert / commit, any set of steps refused by the database:
+the ids returned to callers are pairwise different, each is a committed row, none existed before,
+and the table never holds an id twice. -/
+theorem ids_unique_all_interleavings (rows0 : List UKey) (h0 : rows0.Nodup) (days : List Nat)
+    (sched : List (Nat × Bool)) :
+    let s := run sched (init rows0 days)
+    (returned s.txns).Nodup ∧ s.rows.Nodup ∧ (∀ k ∈ returned s.txns, k ∈ s.rows ∧ k ∉ rows0) ∧
+      (∀ k ∈ rows0, k ∈ s.rows) := by
+  have inv := run_inv rows0 sched _ (init_inv rows0 days h0)
+  exact ⟨inv.ret_nodup, (List.nodup_append.mp inv.nodup).1, inv.ret_rows, inv.grow⟩
+
+/-- a non-trivial instance: two transactions of the same day racing on an empty table;
+both read "no row", both want `day.1`; only one can commit it -/
+example : (returned (run [(0, true), (1, true), (0, true), (1, true), (0, true), (1, true)]
+    (init [] [20260929, 20260929])).txns) = [⟨20260929, 1⟩] := by decide
 
 end C20
